@@ -42,4 +42,3 @@ def run(ctx):
         delegates_to(ctx, "K2-hook-body", rec, ["plugins::memberof::apply_memberof"], "apply_memberof",
                      "the hook can succeed without running the memberOf fix-point")
     hook_nontrivial(ctx, "K2-hook-body", "memberof", PLUGIN, "pre_delete")
-    ctx.floor("K2-contains", "registries requiring MemberOf", len(POST + PRE), 7)
